@@ -559,7 +559,7 @@ def stage_container(ctx):
         ctx.cov['oracle']['container_note'] = 'bcrypt available: encrypted-container cases skipped by the correspondence'
     comments = [b'', b'c', b'user@host', b'a\nb', b'\x00', b'\xff\xfe binary \x00\x01', b' lead and trail ', b'x' * 255, b'y' * 300,
                 bytes(range(256))]
-    enc_cases, dec_cases = [], []
+    enc_cases, dec_cases, file_cases = [], [], []
     T = _thorough(ctx)
     for alg, kw, key in pool:
         fields = parse_strings(key.private_data)
@@ -578,6 +578,26 @@ def stage_container(ctx):
             enc_cases.append('(%s, %s, %s, %s, %s)' % (zl(check), kp, zl(cm), zl(key.public_data), zl(cont)))
             ctx.note_case(('container-encode', alg, repr(kw), cm), nontrivial=len(cm) > 0)
         key.set_comment(None)
+        # the same through the file entry points: a key read from a file has a file name but still no comment
+        import tempfile
+        for cm in (None, b'from file'):
+            for ffmt in ('pkcs8-pem', 'openssh'):
+                with tempfile.TemporaryDirectory(prefix='c15c-', dir='/var/tmp') as td:
+                    path = os.path.join(td, 'id_key_file')
+                    key.set_comment(cm)
+                    key.write_private_key(path, ffmt)
+                    key.set_comment(None)
+                    k2 = pk.read_private_key(path)
+                    if ffmt != 'openssh' and cm is not None:
+                        k2.set_comment(cm)
+                    cont = unarmour(k2.export_private_key('openssh'))
+                i = 15
+                for _ in range(3):
+                    i += 4 + int.from_bytes(cont[i:i + 4], 'big')
+                i += 4
+                i += 4 + int.from_bytes(cont[i:i + 4], 'big')
+                file_cases.append('(%s, %s, %s, %s, %s)' % (zl(cont[i + 4:i + 8]), kp, copt(cm, zl), zl(key.public_data), zl(cont)))
+                ctx.note_case(('container-encode-file', alg, repr(kw), cm, ffmt), nontrivial=True)
         priv = key.private_data
         pubd = key.public_data
         variants = [dict(comment=cm) for cm in cms[:6]]
@@ -621,6 +641,7 @@ def stage_container(ctx):
                 ctx.note_case(('container-decode', alg, repr(kw), repr(sorted(var.items())), pw), nontrivial=True)
     ctx.sample({'container_variant': repr(variants[9]), 'key': pool[0][0]})
     _corr(ctx, 'openssh_encode', 'chk_openssh_encode', enc_cases, 'bytes * kparams * bytes * bytes * bytes', shard=60)
+    _corr(ctx, 'openssh_export_file_key', 'chk_openssh_export_key', file_cases, 'bytes * kparams * option bytes * bytes * bytes', shard=20)
     _corr(ctx, 'openssh_decode', 'chk_openssh_decode', dec_cases,
           'list (bytes * Z) * bytes * option bytes * ores (bytes * bytes)', shard=100, defs=tdef)
     d = ctx.cov['distribution']
@@ -679,6 +700,54 @@ def stage_pkcs(ctx):
                     ctx.note_case(('unpad', bs, i), nontrivial=True)
         _corr(ctx, 'rfc1423_pad', 'chk_rfc1423_pad', c_pad, 'Z * bytes * bytes')
         _corr(ctx, 'rfc1423_unpad', 'chk_rfc1423_unpad', c_unpad, 'Z * bytes * option bytes')
+    # PBKDF2-params with the OPTIONAL keyLength / prf fields
+    try:
+        import asyncssh.pbe as pbe
+        import hashlib
+        prf_map = {tuple(int(x) for x in o.value.split('.')): h for o, h in pbe._pbes2_prf.items()}
+        fn = pbe._pbes2_pbkdf2
+    except Exception as e:                     # noqa
+        prf_map = None
+        ctx.cov['oracle']['pbkdf2_params'] = f'unavailable ({type(e).__name__})'
+    if prf_map:
+        OIDc = m.ObjectIdentifier
+        prfs = [OIDc('.'.join(map(str, o))) for o in sorted(prf_map)]
+        pdef = '\nDefinition prfs : list (list Z) := %s.' % clist(sorted(prf_map), lambda o: clist(o, str))
+        salts = [b'saltsalt', b'', b'\x00' * 20]
+        tails = [(), (16,), (24,), (5,), (b'x',), (None,)]     # (a 1-byte key would not identify the PRF)
+        prft = [(), ((prfs[0], None),), ((prfs[-1], None),), ((prfs[2], 5),), ((OIDc('1.2.3'), None),), ((prfs[1],),), ((prfs[1], None, None),),
+                (prfs[1],), (b'x',), ((prfs[3], None), 7), ((b'o', None),)]
+        c_kdf = []
+        for salt in salts:
+            for cnt in (1, 2, True, b'1'):
+                for t in tails:
+                    for pt in prft:
+                        if rng.random() < (0.0 if T else 0.55):
+                            continue
+                        params = [(salt, cnt) + t + pt]
+                        for kp_ in ([params] if rng.random() < 0.9 else [params + [(b's', 1)], [], [b'x'], [(salt,)]]):
+                            try:
+                                keyb = fn(list(kp_), b'pw', 16)
+                                sz = len(keyb)
+                                name = [o for o, h in prf_map.items()
+                                        if hashlib.pbkdf2_hmac(h, b'pw', salt, int(cnt), sz) == keyb]
+                                got = '(Some (%d, %s))' % (sz, clist(name[0], str)) if name else None
+                                ctx.count('pbkdf2_params.accepted')
+                            except pbe.KeyEncryptionError:
+                                got = 'None'
+                                ctx.count('pbkdf2_params.rejected')
+                            except Exception as e:     # noqa
+                                ctx.broke('correspondence:pbkdf2_params', f'unmodelled exception {type(e).__name__}: {e} for {kp_!r}'[:400])
+                                continue
+                            if got is None:
+                                ctx.broke('correspondence:pbkdf2_params', f'derived key matches no registered PRF for {kp_!r}'[:400])
+                                continue
+                            c_kdf.append('(prfs, 16, %s, %s)' % (clist(kp_, G.cv), got))
+                            ctx.note_case(('pbkdf2-params', repr(kp_)), nontrivial=True)
+        _corr(ctx, 'pbkdf2_params', 'chk_pbkdf2_params', c_kdf, 'list (list Z) * Z * list value * option (Z * list Z)', defs=pdef)
+        d = ctx.cov['distribution']
+        if not d.get('pbkdf2_params.accepted') or not d.get('pbkdf2_params.rejected'):
+            ctx.broke('vacuity:pbkdf2_params', 'accepted and rejected parameter lists are both needed')
     # RSA PKCS#1 / PKCS#8 wrappers
     from asyncssh.rsa import RSAKey
     rsa_keys = [k for a, kw, k in key_pool(ctx) if a == 'ssh-rsa']
@@ -744,6 +813,12 @@ def _group(rp):
     k = rp.get('kind', '?')
     if k in ('der_deep_nesting', 'der_recursion'):
         return 'der_deep_nesting'
+    if k == 'optional_fields':
+        v = rp.get('variant', '')
+        return 'optional_fields ' + ('pbes2 keyLength' if 'keyLength=present' in v else 'pbes2' if v.startswith('pbes2') else
+                                     'ECPrivateKey optional publicKey/parameters' if 'ECPrivateKey' in v else v)
+    if k == 'file_entry_point':
+        return 'file_entry_point %s %s comment:%s' % (rp.get('api'), rp.get('format'), 'none' if rp.get('comment') is None else 'set')
     if k == 'der_error_class':
         return 'der_error_class ' + str(rp.get('exception'))
     if rp.get('opts', {}).get('pbe_version') == 1 and \
@@ -949,6 +1024,17 @@ def replay(rp):
                 SW.check_private_roundtrip(rctx, alg, kw, key, rp['format'], rp.get('opts') or {}, pw, cm)
             elif kind in ('public_roundtrip', 'public_comment_hard'):
                 SW.check_public_roundtrip(rctx, alg, kw, key, rp['format'], cm, hard=(kind == 'public_comment_hard'))
+            elif kind == 'optional_fields':
+                try:
+                    k2 = asyncssh.import_private_key(bytes.fromhex(rp['data']), pw)
+                    same = k2.public_data == asyncssh.import_public_key(bytes.fromhex(rp['ref_pub'])).public_data
+                    print('imports; public half', 'as expected' if same else 'DIFFERENT: ' + k2.public_data.hex()[-24:])
+                    return 0 if same else 1
+                except Exception as e:         # noqa
+                    print('still fails:', type(e).__name__, e)
+                    return 1
+            elif kind == 'file_entry_point':
+                SW.check_file_entry_points(rctx, [(alg, kw, key)], tmp)
             elif 'certificate' in kind:
                 SW.check_certificates(rctx, [(alg, kw, key)], tmp)
             elif kind.startswith('pyca_'):
